@@ -205,6 +205,9 @@ class C12(PropertyCheck):
                   ('typed-error', 'struct P2<A,B>(a: A, b: B)\nfn f(x: P2<int, str>) -> int { 1 }\nlet r = f(P2("s", 1));'),
                   ('typed-error', 'union E3<A,B,C>(a: A, b: B, c: C)\nlet e: E3<int, str, bool> = E3::a("x");'),
                   ('typed-error', 'struct P2<A,B>(a: A, b: B)\nlet l = [P2(1, "a"), P2("a", 1)];'),
+                  ('typed-error', 'struct V6(a: int, b: int, c: int, d: int, e: int, f: int)\nlet x = V6(1, 2, 3, 4, 5, 6).display();'),
+                  ('typed-error', 'struct V6(a: int, b: int, c: int, d: int, e: int, f: int)\nlet x = [V6(1, 2, 3, 4, 5, 6)] == [V6(1, 2, 3, 4, 5, 6)];'),
+                  ('typed-error', 'struct P6<A,B,C,D,E,F>(a: A, b: B, c: C, d: D, e: E, f: F)\nlet x = hash(P6(1, "s", 1.5, true, [1], (1, 2)));'),
                   ('identifier', 'let item18446744073709551616 = 1;\nfn c0() -> int { item18446744073709551616 }'),
                   ('identifier', 'let item99999999999999999999999999999999999 = 1;\nfn c0() -> int { item99999999999999999999999999999999999 + 1 }'),
                   ('identifier', 'let t = (1, 2);\nfn c0() -> int { t::item18446744073709551616 }'), ('identifier', 'let t = (1, 2);\nfn c0() -> int { t::item1 }'),
